@@ -38,7 +38,7 @@ type LockSpec struct {
 }
 
 type C02Ev struct {
-	Kind   string `json:"k"` // attack | honest | mine | poison
+	Kind   string `json:"k"` // attack | honest | mine | poison | twin
 	Attack string `json:"attack,omitempty"`
 	T      int    `json:"t,omitempty"`  // target pick
 	T2     int    `json:"t2,omitempty"` // second input pick (0 = none)
@@ -87,6 +87,10 @@ func genC02(rt *rapid.T) any {
 			}
 		case 3:
 			ev.Kind = "poison"
+			if rapid.Bool().Draw(rt, "twinq") {
+				ev.Kind = "twin"
+				ev.Via = rapid.IntRange(0, 3).Draw(rt, "twinkind")
+			}
 		default:
 			ev.Kind = "attack"
 			// rapid favours small values: rotate by the event index so that every kind is reached evenly
@@ -672,6 +676,8 @@ func execC02(t *testing.T, plan any, r *simkit.Run) {
 				}
 			case "poison":
 				c.poison(ev)
+			case "twin":
+				c.twinAfterValid(ev)
 			case "attack":
 				c.runAttack(ev)
 			}
@@ -962,16 +968,74 @@ func (c *c02Env) poison(ev C02Ev) {
 	c.honest[again.ID] = l.label()
 }
 
+// twinAfterValid: the owners' correctly signed spend reaches the victim first (the mempool validates
+// and admits it); then a Byzantine proposer offers a block that carries the same transaction - same
+// id, the id does not cover witnesses - with a witness that authorises nothing (a flipped signature
+// bit, zeroed or dropped signatures, an empty witness). A node that remembers "this transaction id has
+// been verified" instead of verifying what it is given would connect it.
+func (c *c02Env) twinAfterValid(ev C02Ev) {
+	r := c.r
+	ts := c.targets(true)
+	if len(ts) == 0 {
+		return
+	}
+	o := ts[ev.T%len(ts)]
+	l := c.lockOf(o.ID)
+	dest := c.w.Keys[ev.B%len(c.w.Keys)].Program
+	good := c.spendTx([]*model.Out{o}, dest, ev.A, 9)
+	if good == nil {
+		return
+	}
+	admitted, _ := c.submit("correct spend before its invalid twin", good)
+	if r.Failed() || !admitted {
+		return
+	}
+	c.spends++
+	c.honest[good.ID] = l.label()
+	bad := withData(cloneData(good))
+	args := bad.Inputs[0].Arguments()
+	kind := []string{"flip-sig", "zero-sig", "drop-sig", "empty-witness"}[ev.Via%4]
+	switch kind {
+	case "flip-sig":
+		args[0] = flipBit(args[0], ev.A)
+	case "zero-sig":
+		args[0] = make([]byte, len(args[0]))
+	case "drop-sig":
+		args = args[1:]
+	case "empty-witness":
+		args = nil
+	}
+	bad.SetInputArguments(0, args)
+	if authorised(bad, 0, l) {
+		r.Count("probe.theft_passes_statement_test", 1)
+		return
+	}
+	label := "twin-after-valid-" + kind + "/" + l.label()
+	c.labels[witnessKey(bad)] = label
+	c.attacks++
+	r.Count("fault.theft.twin_after_valid", 1)
+	accepted, _ := c.offerByz("byzantine block with "+label, []*types.Tx{bad})
+	r.Count("fault.byzantine_block", 1)
+	if r.Failed() {
+		return
+	}
+	if accepted {
+		r.Violate("theft-admitted", "chain/"+label, "the victim connected a block in which the spend of %s carries a witness that authorises nothing (%s); it had verified the same transaction id with the owners' witness before", l.label(), kind)
+		return
+	}
+	r.Tracef("twin %s -> block refused", label)
+}
+
 // SpecC02: standard programs need a matching witness.
 func SpecC02() simkit.Spec {
-	faults := []string{"fault.byzantine_block", "fault.theft.poison"}
+	faults := []string{"fault.byzantine_block", "fault.theft.poison", "fault.theft.twin_after_valid"}
 	for _, a := range c02Attacks {
 		faults = append(faults, "fault.theft."+a)
 	}
 	return simkit.Spec{
 		Prop: "C02", Gen: genC02, NewPlan: func() any { return &C02Plan{} }, Exec: execC02,
 		Rule: "warm-up chain until epoch rewards mature; a victim node follows the chain; honest clients move the rewards into three outputs for each of 1-4 drawn locks (P2WPKH, expanded P2PKH, P2WSH and expanded P2SH over an m-of-n multisig redeem script, bare multisig; n <= 6, every m) and later spend them with the owners' witness (one or two inputs, possibly re-locking), through the mempool or alone inside a validly signed block; " +
-			"a Byzantine peer attacks unspent locked outputs with 23 kinds of attempt (signatures by foreign keys; the owners' witness replayed after changing an output amount / program, adding an output or input, the time range, the version, or for another output under the same lock; permuted, repeated, m-1, non-member signatures; foreign or threshold-1 redeem script; an input naming the thief's own program; one flipped bit in a signature, key or script; witnesses swapped between inputs; empty witness; signatures over the transaction id, the input id or another input's hash) through the mempool, inside Byzantine blocks or both. " +
+			"a Byzantine peer attacks unspent locked outputs with 23 kinds of attempt (signatures by foreign keys; the owners' witness replayed after changing an output amount / program, adding an output or input, the time range, the version, or for another output under the same lock; permuted, repeated, m-1, non-member signatures; foreign or threshold-1 redeem script; an input naming the thief's own program; one flipped bit in a signature, key or script; witnesses swapped between inputs; empty witness; signatures over the transaction id, the input id or another input's hash) through the mempool, inside Byzantine blocks or both; and a Byzantine block that carries an already admitted, correctly signed spend with its witness replaced by one that authorises nothing (same transaction id). " +
 			"Oracle on every pool entry and every main-chain transaction: each input spending a client-recorded output carries valid signatures of >= m distinct committed keys over sha3(input id, transaction id) and the committed key / script (ed25519 checked independently); attempts that are thefts by construction must never be held; honest spends must be admitted, mined and accepted in blocks. non-trivial = at least one attempt and one honest spend; distinct = hash of the trace",
 		Components:  nodeComponents,
 		FaultKinds:  faults,
